@@ -15,6 +15,7 @@ package main
 // which is observed and reported (the model takes it as an input).
 
 import (
+	"os"
 	"context"
 	"errors"
 	"fmt"
@@ -34,7 +35,22 @@ import (
 
 func init() {
 	props["C07"] = func(tier string, seed uint64, out *Out) { runBatchProp("C07", tier, seed, out) }
-	props["C12"] = func(tier string, seed uint64, out *Out) { runBatchProp("C12", tier, seed, out) }
+	props["C12"] = func(tier string, seed uint64, out *Out) {
+		if os.Getenv("VERIF_SHARD") == "" {
+			runBatchProp("C12", tier, seed, out)
+		}
+		// wire level: batches on the simulated cluster; every call that reaches a regionserver names
+		// a region hosted there whose range contains the call's key
+		n := 160
+		if tier != "quick" {
+			n = 3000
+		}
+		runSharded("C12", tier, seed, out, 16, func(shard, nsh int, emit func(string)) {
+			for i := shard; i < n; i += nsh {
+				emit(seqScenario(NewRNG(seed, fmt.Sprintf("c12w-%d", i)), "c12w"))
+			}
+		})
+	}
 }
 
 // ---------------------------------------------------------------- case description
